@@ -31,6 +31,12 @@ type World struct {
 	heapSorts   map[string]string // heap name -> sort
 	axioms      []string
 	boxDeclared map[string]bool
+	heapTypes   map[string]heapTypeInfo
+}
+
+type heapTypeInfo struct {
+	kind string // elem, cell
+	t    types.Type
 }
 
 type structInfo struct {
@@ -52,6 +58,7 @@ func NewWorld() *World {
 		sortCache:   map[types.Type]string{},
 		heapSorts:   map[string]string{},
 		boxDeclared: map[string]bool{},
+		heapTypes:   map[string]heapTypeInfo{},
 	}
 }
 
@@ -317,12 +324,14 @@ func (w *World) FieldHeap(structT types.Type, idx int) string {
 // CellHeap: per pointee type heap for pointers to non-struct values.
 func (w *World) CellHeap(t types.Type) string {
 	name := "Cell_" + shortTypeName(t)
+	w.heapTypes[name] = heapTypeInfo{"cell", t}
 	return w.heap(name, "(Array Int "+w.SortOf(t)+")")
 }
 
 // ElemHeap: slice backing stores per element type.
 func (w *World) ElemHeap(elem types.Type) string {
 	name := "Elem_" + shortTypeName(elem)
+	w.heapTypes[name] = heapTypeInfo{"elem", elem}
 	return w.heap(name, "(Array Int (Array Int "+w.SortOf(elem)+"))")
 }
 
